@@ -75,6 +75,21 @@ func (m *Model) url(ni, ui int) string {
 
 func dirOf(url string) string { return strings.TrimPrefix(url, "rosmar://") }
 
+// spelled returns one of the accepted spellings of an on-disk bucket URL (rosmar://dir, file://dir, the plain
+// path), chosen by the step number: they all name the same bucket, for "share one store" as for "another URL".
+func (m *Model) spelled(url string) string {
+	if !strings.HasPrefix(url, "rosmar://") {
+		return url
+	}
+	switch len(m.Steps) % 3 {
+	case 1:
+		return "file://" + dirOf(url)
+	case 2:
+		return dirOf(url)
+	}
+	return url
+}
+
 func (m *Model) openCount(s *store) int {
 	n := 0
 	for _, h := range m.handles {
@@ -139,7 +154,7 @@ func (m *Model) Open(ni, ui int, mode rosmar.OpenMode) {
 				err = fmt.Errorf("panic: %v", r)
 			}
 		}()
-		b, err = rosmar.OpenBucket(url, name, mode)
+		b, err = rosmar.OpenBucket(m.spelled(url), name, mode)
 	}()
 	state := "absent"
 	if reg != nil {
